@@ -161,7 +161,30 @@ def sample(ctx, budget=1.0, hint=None, broken=None):
         # 20%: a curve of ordinary size placed far from the origin (coordinates 1e4..1e7 times its size): shape-relative and
         # position-relative magnitudes differ, which is where "is this coefficient negligible" shortcuts go wrong
         ps, scale = _rand_pts0(r, k)
-        if r.random() < 0.2:
+        c_ = r.random()
+        if c_ < 0.08 and k == 4:
+            # nearly, but not exactly, of lower degree: a quadratic written as a cubic with its control points rounded to three decimals
+            # (what an editor that only knows cubics saves), or with one handle nudged by 1e-6 of the size
+            q_, _ = _rand_pts0(r, 3)
+            sc_ = max(abs(x_) for x_ in q_) or 1.0
+            q_ = [x_ / sc_ * 300 for x_ in q_]
+            ps = [q_[0], q_[0] + 2 * (q_[1] - q_[0]) / 3, q_[2] + 2 * (q_[1] - q_[2]) / 3, q_[2]]
+            if r.random() < 0.6:
+                ps = [complex(round(x_.real, 3), round(x_.imag, 3)) for x_ in ps]
+            else:
+                ps[1] = ps[1] + complex(3e-4, -2e-4)
+            scale = 300.0
+        elif c_ < 0.14 and k == 3:
+            # a very flat quadratic: control point 1e-4 .. 1e-6 of the chord off the chord's midpoint
+            a_, b_ = ps[0], ps[2]
+            if a_ != b_:
+                ps = [a_, (a_ + b_) / 2 + 1j * (b_ - a_) * r.choice([1e-4, 3e-5, 1e-6]), b_]
+        elif c_ < 0.20:
+            # ordinary shapes drawn at a very small scale
+            f_ = r.choice([1e-8, 1e-9, 1e-11]) / (max(abs(x_) for x_ in ps) or 1.0)
+            ps = [x_ * f_ for x_ in ps]
+            scale = 1e-9
+        if r.random() < 0.2 and c_ >= 0.20:
             off = complex(r.choice([-1, 1, 1, 0]) * 10.0 ** r.randint(4, 7), r.choice([-1, 1, 1]) * 10.0 ** r.randint(4, 7)) * max(scale, 1e-3)
             ps = [p + off for p in ps]
         return ps, scale
